@@ -1,7 +1,8 @@
 (* C34 — ffi.include() shares declarations instead of copying them.
-   Statements only; proofs are in C34/Proofs.v.  No axioms expected. *)
+   Statements only; proofs are in C34/Proofs.v, Proofs2.v (regenerated rows), Proofs3.v (bridge), Proofs4.v (C25).  No axioms expected. *)
 From Coq Require Import NArith ZArith List Bool Arith.
-From Cffi Require Import C34.Gen C34.Model C34.Proofs.
+From Cffi Require C25.Model.
+From Cffi Require Import C34.Gen C34.Model C34.Proofs C34.Proofs2 C34.Proofs3 C34.Proofs4.
 Import ListNotations.
 
 (* ---------------- in-line FFI (Parser.include, regenerated kind table C34/Gen.v) *)
@@ -169,6 +170,78 @@ Theorem C34_lib_object_is_the_declaring_libs_object : forall w m md nm j, wf_wor
 Proof. exact lib_getattr_shares. Qed.
 Print Assumptions C34_lib_object_is_the_declaring_libs_object.
 
+(* ---------------- the three searches as REGENERATED from ffi_obj.c / lib_obj.c (C34/Gen.v) *)
+
+(* the rows read from the current source are the rows the model stands for: guards [NULL tuple; recursion > 100]
+   in that order and NO other early exit (in particular none in front of ffi_fetch_int_constant's local lookup
+   and delegation), recursive calls at recursion + 1, on the included_ffis of the item just looked at, `continue`
+   when the item has no entry, hit when (s1->flags & (EXTERNAL|UNION)) == (s->flags & UNION), integer ops
+   _CFFI_OP_CONSTANT_INT and _CFFI_OP_ENUM.  Re-checked by reflexivity against every regenerated Gen.v. *)
+Theorem C34_gen_rows_as_modelled : gen_search = [std_struct; std_const; std_lib].
+Proof. exact gen_rows_as_modelled. Qed.
+Print Assumptions C34_gen_rows_as_modelled.
+
+(* hence the searches that READ their parameters from Gen.v (the ones the correspondence check evaluates) are
+   the searches all theorems of this file talk about — on every world, from every module *)
+Theorem C34_regenerated_searches_are_the_model : forall w m nm un,
+  resolve_structG w m nm un = resolve_struct w m nm un /\
+  integer_constG w m nm = integer_const w m nm /\
+  lib_getattrG w m nm = lib_getattr w m nm.
+Proof. exact regenerated_searches_are_the_model. Qed.
+Print Assumptions C34_regenerated_searches_are_the_model.
+
+(* ---------------- bridge in-line -> generated modules: [closed] is a theorem *)
+
+(* for every list of FFIs built by successful FFI.include steps (from FFIs without includes and with arbitrary
+   declarations; an FFI is no longer changed once another one includes it), the modules the recompiler emits
+   (module_of: one struct_unions entry per "struct x"/"union x" declaration, included_ffis as recorded) satisfy
+   the hypothesis [closed] of the sharing theorem, for every name *)
+Theorem C34_recompiled_world_closed : forall ffis, built ffis -> forall nm, closed (map module_of ffis) nm.
+Proof. exact recompiled_world_closed. Qed.
+Print Assumptions C34_recompiled_world_closed.
+
+(* the _CFFI_F_EXTERNAL flag (Recompiler._struct_ctx, regenerated as gen_external_iff_included): after a
+   successful include, the object of every copied declaration of the included FFI whose name was unbound before
+   (or whose object was already marked) is in _included_declarations, so its entry is emitted EXTERNAL *)
+Theorem C34_include_marks_external : forall self other self' n o q,
+  gen_external_iff_included = true ->
+  parser_include self other = (self', None) ->
+  In (n, (o, q)) (decls other) -> copied n = true ->
+  existsb (N.eqb o) (incl_decls self) = true \/ lookup n (decls self) = None ->
+  external_flag self' o = true.
+Proof. exact include_marks_external. Qed.
+Print Assumptions C34_include_marks_external.
+
+(* ---------------- C34 x C25: the table lookups of the model are the binary searches of the C code *)
+
+(* on a struct_unions table strictly sorted by name in byte order, with NUL-free names (what the recompiler
+   emits: C25_python_sort_gives_table), the model's scan find_struct returns exactly what search_in_struct_unions
+   (C25.Model.search_sorted, the model of MAKE_SEARCH_FUNC) returns: same index, that entry *)
+Theorem C34_find_struct_is_search_sorted : forall l nm,
+  Forall C25.Model.nulfree (map s_name l) -> C25.Model.nulfree nm ->
+  (forall i j, i < j < length (map s_name l) ->
+     C25.Model.lex (nth i (map s_name l) []) (nth j (map s_name l) []) = Lt) ->
+  find_struct nm l 0 =
+  match C25.Model.search_sorted (map s_name l) nm with
+  | Some i => Some (i, nth i l sentry_dflt)
+  | None => None
+  end.
+Proof. exact find_struct_is_search_sorted. Qed.
+Print Assumptions C34_find_struct_is_search_sorted.
+
+(* the same for the globals table (search_in_globals) *)
+Theorem C34_lookup_is_search_sorted : forall (V : Type) (l : list (str * V)) nm,
+  Forall C25.Model.nulfree (map fst l) -> C25.Model.nulfree nm ->
+  (forall i j, i < j < length (map fst l) ->
+     C25.Model.lex (nth i (map fst l) []) (nth j (map fst l) []) = Lt) ->
+  lookup nm l =
+  match C25.Model.search_sorted (map fst l) nm with
+  | Some i => option_map snd (nth_error l i)
+  | None => None
+  end.
+Proof. exact lookup_is_search_sorted. Qed.
+Print Assumptions C34_lookup_is_search_sorted.
+
 (* ---------------- non-vacuity *)
 Definition ex_s (c : N) : str := [115;116;114;117;99;116;32; c]%N.       (* "struct " ++ c *)
 Definition ex_t (c : N) : str := [116;121;112;101;100;101;102;32; c]%N.  (* "typedef " ++ c *)
@@ -218,4 +291,63 @@ Example C34_example_cap :
   (* a module that includes itself, and a dangling include index: the cap, resp. "not found" — never OutOfFuel *)
   integer_const [mkModule [] [] [0] false] 0 [75]%N = Error RuntimeError /\
   integer_const [mkModule [] [] [5] false] 0 [75]%N = Error AttributeError.
+Proof. vm_compute. repeat split; reflexivity. Qed.
+
+(* non-vacuity of the headline sharing theorem and of C34_recompiled_world_closed: a <- b <- c built by two
+   FFI.include steps; every hypothesis of C34_included_struct_is_the_same_object holds for the emitted modules
+   (closed by the bridge theorem), and its conclusion is the computed answer *)
+Example C34_closed_nonvacuous :
+  let S := [115]%N in
+  let w0 := [mkFFI (mkParser [(ex_s 115, (1, 0)); (ex_t 116, (2, 0))]%N [] []) [];
+             mkFFI (mkParser [(ex_s 98, (3, 0))]%N [] []) [];
+             mkFFI (mkParser [] [] []) []] in
+  let w1 := fst (api_include w0 1 0) in
+  let w2 := fst (api_include w1 2 1) in
+  let w := map module_of w2 in
+  built w2 /\ closed w S /\ wf_world w /\ gen_external_iff_included = true /\
+  w = [mkModule [mkS S false false] [] [] true;
+       mkModule [mkS [98]%N false false; mkS S false true] [] [0] true;
+       mkModule [mkS [98]%N false true; mkS S false true] [] [1] true] /\
+  reach w 2 0 /\ defines w 0 0 S false /\ (forall j idx, defines w j idx S false -> j = 0) /\
+  resolve_struct w 2 S false = Found (0, 0) /\ resolve_structG w 2 S false = Found (0, 0).
+Proof.
+cbv zeta.
+set (W0 := [mkFFI (mkParser [(ex_s 115, (1, 0)); (ex_t 116, (2, 0))]%N [] []) [];
+            mkFFI (mkParser [(ex_s 98, (3, 0))]%N [] []) [];
+            mkFFI (mkParser [] [] []) []]).
+set (W1 := fst (api_include W0 1 0)).
+set (W2 := fst (api_include W1 2 1)).
+assert (Hb : built W2).
+{ apply (built_include W1 2 1); [apply (built_include W0 1 0); [apply built_init| |vm_compute; reflexivity]|
+                                 |vm_compute; reflexivity].
+  - intros k fk H. do 3 (destruct k as [|k]; [inversion H; reflexivity|]). destruct k; discriminate.
+  - intros k fk H. do 3 (destruct k as [|k]; [inversion H; subst; cbn; tauto|]). destruct k; discriminate.
+  - intros k fk H. do 3 (destruct k as [|k]; [vm_compute in H; inversion H; subst; cbn; intuition discriminate|]).
+    destruct k; discriminate. }
+split; [exact Hb|]. split; [exact (recompiled_world_closed _ Hb _)|].
+split.
+{ intros i m H. do 3 (destruct i as [|i]; [inversion H; subst; vm_compute; repeat constructor|]).
+  destruct i; discriminate. }
+split; [reflexivity|]. split; [vm_compute; reflexivity|].
+split.
+{ eapply reach_trans; [vm_compute; reflexivity|left; reflexivity|].
+  eapply reach_step; [vm_compute; reflexivity|left; reflexivity]. }
+split.
+{ eexists _, _. repeat split; vm_compute; reflexivity. }
+split.
+{ intros j idx (mj & s & Hn & Hf & He & Hu).
+  do 3 (destruct j as [|j]; [try reflexivity; vm_compute in Hn; inversion Hn; subst; vm_compute in Hf;
+                             inversion Hf; subst; discriminate|]).
+  destruct j; discriminate. }
+split; vm_compute; reflexivity.
+Qed.
+
+(* what a changed row means (the world of seed C34-c: a <- b <- c, b declares no global of its own): with the
+   row of the current source c finds a's constant; with an extra early `return NULL` in front of
+   ffi_fetch_int_constant's delegation (a row the regeneration would emit, and C34_gen_rows_as_modelled reject)
+   the constant is hidden *)
+Example C34_early_exit_row_hides_constants :
+  let w := [mkModule [] [([75]%N, GInt 7)] [] false; mkModule [] [] [0] false; mkModule [] [] [1] false] in
+  const_with_row gen_row_const w 2 [75]%N = Found 7%Z /\ integer_constG w 2 [75]%N = Found 7%Z /\
+  const_with_row row_with_early_exit w 2 [75]%N = NotFound.
 Proof. vm_compute. repeat split; reflexivity. Qed.
